@@ -1,7 +1,6 @@
 """Abstract connection module."""
 import asyncio
 import logging
-import sys
 import time
 from enum import Enum, IntEnum
 
@@ -603,19 +602,32 @@ class AsyncFIXConnection:
 
         begin_seq_no = int(resend_msg[FTag.BeginSeqNo])
         end_seq_no = int(resend_msg[FTag.EndSeqNo])
-        if end_seq_no == 0:
-            end_seq_no = sys.maxsize
+        # Only already sent MsgSeqNum can be requested
+        last_seq_no = self._session.next_num_out - 1
+        if end_seq_no == 0 or end_seq_no > last_seq_no:
+            end_seq_no = last_seq_no
         self.log.info("Received resent request from %s to %s", begin_seq_no, end_seq_no)
+
+        try:
+            if 1 <= begin_seq_no <= end_seq_no:
+                await self._resend_range(begin_seq_no, end_seq_no)
+            else:
+                self.log.warning(f"Ignoring invalid ResendRequest: {resend_msg}")
+        finally:
+            if self._connection_state == ConnectionState.RESENDREQ_HANDLING:
+                await self._state_set(ConnectionState.ACTIVE)
+
+    async def _resend_range(self, begin_seq_no: int, end_seq_no: int):
+        """Replays journaled messages begin_seq_no..end_seq_no (inclusive) to the peer.
+
+        Application messages are sent with PossDupFlag(43)=Y under original MsgSeqNum,
+        everything else is covered by SequenceReset(35=4) GapFill. Replayed messages
+        are not journaled again and session next_num_out is not affected.
+        """
         journal_replay_msgs = self._journaler.recover_messages(
             self._session, MessageDirection.OUTBOUND, begin_seq_no, end_seq_no
         )
-
-        # Remember next_num_out
-        current_next_num_out = self._session.next_num_out
-
-        self._journaler.set_seq_num(self._session, next_num_out=begin_seq_no)
-        gap_fill_begin = int(begin_seq_no)
-        gap_fill_end = int(begin_seq_no)
+        gap_fill_begin = begin_seq_no
 
         noreply_msgs = {
             FMsg.LOGON,
@@ -632,51 +644,43 @@ class AsyncFIXConnection:
 
             is_sess_msg = replay_msg[FTag.MsgType] in noreply_msgs
             if is_sess_msg or not await self.should_replay(replay_msg):
-                gap_fill_end = msg_seq_num + 1
-            else:
-                if gap_fill_begin < gap_fill_end:
-                    # we need to send a gap fill message
-                    gap_fill_msg = FIXMessage(FMsg.SEQUENCERESET)
-                    gap_fill_msg[FTag.GapFillFlag] = "Y"
-                    gap_fill_msg[FTag.MsgSeqNum] = gap_fill_begin
-                    gap_fill_msg[FTag.NewSeqNo] = str(gap_fill_end)
-                    # breakpoint()
-                    await self.send_msg(gap_fill_msg)
+                continue
 
-                # and then resent the replayMsg
-                replay_msg[FTag.PossDupFlag] = "Y"
-                replay_msg[FTag.OrigSendingTime] = replay_msg[FTag.SendingTime]
-                del replay_msg[FTag.MsgType]
-                del replay_msg[FTag.BeginString]
-                del replay_msg[FTag.BodyLength]
-                del replay_msg[FTag.SendingTime]
-                del replay_msg[FTag.SenderCompID]
-                del replay_msg[FTag.TargetCompID]
-                del replay_msg[FTag.CheckSum]
-                await self.send_msg(replay_msg)
+            if gap_fill_begin < msg_seq_num:
+                await self._send_gap_fill(gap_fill_begin, msg_seq_num)
 
-                gap_fill_begin = msg_seq_num + 1
-
-        if gap_fill_end < gap_fill_begin:
-            self.log.warning(
-                "Journal MsgSeqNum not reflecting last"
-                f" next_num_out={current_next_num_out}, forcing reset."
+            # and then resent the replayMsg
+            replay_msg.set(FTag.PossDupFlag, "Y", replace=True)
+            replay_msg.set(
+                FTag.OrigSendingTime, replay_msg[FTag.SendingTime], replace=True
             )
+            del replay_msg[FTag.MsgType]
+            del replay_msg[FTag.BeginString]
+            del replay_msg[FTag.BodyLength]
+            del replay_msg[FTag.SendingTime]
+            del replay_msg[FTag.SenderCompID]
+            del replay_msg[FTag.TargetCompID]
+            del replay_msg[FTag.CheckSum]
+            await self._send_retransmission(replay_msg)
 
-        assert gap_fill_end <= current_next_num_out, "Unexpected end for gap"
+            gap_fill_begin = msg_seq_num + 1
 
-        # Remainder not available in some reason
-        if gap_fill_begin < current_next_num_out:
-            gap_fill_msg = FIXMessage(FMsg.SEQUENCERESET)
-            gap_fill_msg[FTag.GapFillFlag] = "Y"
-            gap_fill_msg[FTag.MsgSeqNum] = gap_fill_begin
-            gap_fill_msg[FTag.NewSeqNo] = current_next_num_out
-            await self.send_msg(gap_fill_msg)
+        if gap_fill_begin <= end_seq_no:
+            await self._send_gap_fill(gap_fill_begin, end_seq_no + 1)
 
-        self._journaler.set_seq_num(self._session, next_num_out=current_next_num_out)
+    async def _send_gap_fill(self, seq_no: int, new_seq_no: int):
+        """Sends SequenceReset(35=4) GapFill covering seq_no..new_seq_no-1."""
+        gap_fill_msg = FIXMessage(FMsg.SEQUENCERESET)
+        gap_fill_msg[FTag.GapFillFlag] = "Y"
+        gap_fill_msg[FTag.MsgSeqNum] = seq_no
+        gap_fill_msg[FTag.NewSeqNo] = str(new_seq_no)
+        await self._send_retransmission(gap_fill_msg)
 
-        if self._connection_state != ConnectionState.RESENDREQ_AWAITING:
-            await self._state_set(ConnectionState.ACTIVE)
+    async def _send_retransmission(self, msg: FIXMessage):
+        """Sends message which keeps its MsgSeqNum (journal and session are intact)."""
+        encoded_msg = self._codec.encode(msg, self._session).encode("utf-8")
+        self._socket_writer.write(encoded_msg)
+        await self._socket_writer.drain()
 
     async def _process_seqreset(self, seqreset_msg: FIXMessage):
         """Handles SequenceReset(35=4) message.
